@@ -243,7 +243,9 @@ struct Inst {
 
 fn kind_for(cell: Cell, g: &InstGen) -> (MarketDataInstrumentKind, (i32, u32, u32)) {
     let e = EXPIRIES[g.expiry_sel as usize % EXPIRIES.len()];
-    let expiry: DateTime<Utc> = Utc.with_ymd_and_hms(e.0, e.1, e.2, 8, 0, 0).single().unwrap();
+    // time of day of the expiry instant (the venues' contract names carry the UTC date only)
+    let (h, mi, sec) = [(8, 0, 0), (0, 0, 0), (16, 0, 0), (23, 59, 59)][(g.expiry_sel as usize / EXPIRIES.len()) % 4];
+    let expiry: DateTime<Utc> = Utc.with_ymd_and_hms(e.0, e.1, e.2, h, mi, sec).single().unwrap();
     let fut = MarketDataInstrumentKind::Future(MarketDataFutureContract { expiry });
     let opt = MarketDataInstrumentKind::Option(MarketDataOptionContract {
         kind: if g.call { OptionKind::Call } else { OptionKind::Put },
@@ -756,7 +758,7 @@ fn dispatch(plan: &Plan, form: u8) -> Result<(u32, u32), (String, String)> {
 
 pub struct Attribution;
 
-fn plan_of(case: &AttrCase) -> (Plan, u32, bool, bool) {
+fn plan_of(case: &AttrCase) -> (Plan, u32, bool, bool, bool) {
     let cell = CELLS[case.cell as usize % CELLS.len()];
     let mut insts: Vec<Inst> = Vec::new();
     let mut excluded = 0u32;
@@ -785,6 +787,7 @@ fn plan_of(case: &AttrCase) -> (Plan, u32, bool, bool) {
         }
     }
     let mut year_boundary = false;
+    let mut case_variant_probe = false;
     for m in &case.messages {
         if insts.is_empty() {
             break;
@@ -808,7 +811,18 @@ fn plan_of(case: &AttrCase) -> (Plan, u32, bool, bool) {
                 venue_market(cell, &inst.quote, &inst.base, &inst.kind, inst.expiry, inst.strike, inst.call),
                 venue_market(cell, &inst.base, &inst.quote, &inst.kind, inst.expiry, inst.strike.wrapping_add(1), !inst.call),
             ];
+            // also: the subscribed market's name in the other letter case (a different market string)
+            let flipped = if inst.market.chars().any(|c| c.is_ascii_uppercase()) { inst.market.to_lowercase() } else { inst.market.to_uppercase() };
+            let mut candidates: Vec<String> = candidates.to_vec();
+            if flipped != inst.market {
+                if trades[0].id % 3 == 0 {
+                    candidates.insert(0, flipped);
+                } else {
+                    candidates.push(flipped);
+                }
+            }
             if let Some(miss) = candidates.iter().find(|c| insts.iter().all(|i| &i.market != *c)) {
+                case_variant_probe |= miss.to_lowercase() == inst.market.to_lowercase();
                 msgs.push((miss.clone(), None, trades));
             }
         } else {
@@ -830,11 +844,11 @@ fn plan_of(case: &AttrCase) -> (Plan, u32, bool, bool) {
             batch.insert(at, (*which as usize * n) >> 16);
         }
     }
-    (Plan { cell, insts, msgs, chan_ids, confirm_order, batch }, excluded, prefix_pair, year_boundary)
+    (Plan { cell, insts, msgs, chan_ids, confirm_order, batch }, excluded, prefix_pair, year_boundary, case_variant_probe)
 }
 
 fn inst_gen() -> impl Strategy<Value = InstGen> {
-    (0u8..12, 0u8..12, 0u8..4, 0u8..8, 0u16..9, any::<bool>()).prop_map(|(base, quote, kind_sel, expiry_sel, strike, call)| InstGen { base, quote, kind_sel, expiry_sel, strike, call })
+    (0u8..12, 0u8..12, 0u8..4, 0u8..32, 0u16..9, any::<bool>()).prop_map(|(base, quote, kind_sel, expiry_sel, strike, call)| InstGen { base, quote, kind_sel, expiry_sel, strike, call })
 }
 
 fn trade_gen() -> impl Strategy<Value = TradeGen> {
@@ -889,7 +903,7 @@ impl Check for Attribution {
 
     fn eval(case: &AttrCase) -> CaseReport {
         let mut rep = CaseReport::new();
-        let (plan, excluded, prefix_pair, year_boundary) = plan_of(case);
+        let (plan, excluded, prefix_pair, year_boundary, case_variant_probe) = plan_of(case);
         rep.class_if(excluded > 0, "ambiguous_venue_market_excluded");
         if plan.insts.is_empty() || plan.msgs.is_empty() {
             return rep;
@@ -903,6 +917,8 @@ impl Check for Attribution {
                 rep.class(LABELS[case.cell as usize % 21][case.form as usize % 3]);
                 rep.class_if(prefix_pair, "instruments_sharing_a_prefix");
                 rep.class_if(year_boundary, "okx_expiry_at_year_boundary");
+                rep.class_if(case_variant_probe, "unsubscribed_probe_is_a_case_variant_of_a_subscribed_market");
+                rep.class_if(plan.insts.iter().any(|i| match &i.kind { MarketDataInstrumentKind::Future(f) => f.expiry.time() >= chrono::NaiveTime::from_hms_opt(16, 0, 0).unwrap(), MarketDataInstrumentKind::Option(o) => o.expiry.time() >= chrono::NaiveTime::from_hms_opt(16, 0, 0).unwrap(), _ => false }), "expiry_late_in_the_utc_day");
                 rep.class_if(plan.batch.len() > plan.insts.len(), "subscription_repeated_in_batch");
                 rep.class_if(plan.batch.iter().enumerate().any(|(p, i)| plan.batch[..p].contains(i) && plan.batch[p + 1..].iter().any(|j| !plan.batch[..p].contains(j))), "repeat_followed_by_new_market");
                 rep.class_if(plan.insts.iter().any(|i| matches!(&i.kind, MarketDataInstrumentKind::Option(o) if o.strike.scale() > 0)), "option_with_fractional_strike");
@@ -1068,7 +1084,7 @@ impl Check for IndexedSubscriptions {
 }
 
 pub fn run(ctx: &mut Ctx) {
-    ctx.rule = "attribution: a (connector, kind) pair out of the 21 the dynamic builder supports x an instrument form (MarketDataInstrument / Keyed<K,_> / MarketInstrumentData<K>) x 2..5 instruments with names from an adversarial pool (mixed case, digits, shared prefixes: btc/btcu/usd/usdt/usdc/1inch/xbt/t/sd ...) and kinds legal for the venue (expiries incl. year-boundary dates, strikes incl. fractional ones such as 0.33 / 1.5 / 35000.5, call/put for Gateio/OKX futures and options); in a quarter of the cases 1..2 subscriptions appear a second time in the batch handed to the mapper (not for Bitfinex) x 1..7 messages each for a subscribed market or an unsubscribed look-alike (35%), 1..3 trades per message on batching venues. Venue market strings and payload schemas come from an independent table written from the venue formats the repo documents. Pairs of instruments whose venue market strings coincide are dropped (counted). non-trivial = >= 2 subscribed instruments sharing a prefix AND both a hit and a miss message; every one of the 63 (connector, kind, form) cells must be exercised or the run is inconclusive. indexed_subscriptions: 0..5 instrument definitions over 1..3 exchanges plus a chain of 0..6 futures / options on two underlyings (3 expiries, call/put, 3 strikes); generate_indexed_market_data_subscription_batches must give every instrument one subscription per kind carrying its own index, and index_market_data_subscription_batches must give each unindexed subscription (handed over in a generated order, in two batches) the index of exactly the instrument it was derived from; definitions that differ only in settlement asset / quantity unit are indistinguishable in the market-data form and set aside (counted). non-trivial = >= 3 subscriptions incl. two futures or two options on one underlying.".into();
+    ctx.rule = "attribution: a (connector, kind) pair out of the 21 the dynamic builder supports x an instrument form (MarketDataInstrument / Keyed<K,_> / MarketInstrumentData<K>) x 2..5 instruments with names from an adversarial pool (mixed case, digits, shared prefixes: btc/btcu/usd/usdt/usdc/1inch/xbt/t/sd ...) and kinds legal for the venue (expiries incl. year-boundary dates and expiry instants at 00:00 / 08:00 / 16:00 / 23:59:59 UTC, strikes incl. fractional ones such as 0.33 / 1.5 / 35000.5, call/put for Gateio/OKX futures and options); in a quarter of the cases 1..2 subscriptions appear a second time in the batch handed to the mapper (not for Bitfinex) x 1..7 messages each for a subscribed market or an unsubscribed look-alike (35%; incl. the subscribed market's name in the other letter case), 1..3 trades per message on batching venues. Venue market strings and payload schemas come from an independent table written from the venue formats the repo documents. Pairs of instruments whose venue market strings coincide are dropped (counted). non-trivial = >= 2 subscribed instruments sharing a prefix AND both a hit and a miss message; every one of the 63 (connector, kind, form) cells must be exercised or the run is inconclusive. indexed_subscriptions: 0..5 instrument definitions over 1..3 exchanges plus a chain of 0..6 futures / options on two underlyings (3 expiries, call/put, 3 strikes); generate_indexed_market_data_subscription_batches must give every instrument one subscription per kind carrying its own index, and index_market_data_subscription_batches must give each unindexed subscription (handed over in a generated order, in two batches) the index of exactly the instrument it was derived from; definitions that differ only in settlement asset / quantity unit are indistinguishable in the market-data form and set aside (counted). non-trivial = >= 3 subscriptions incl. two futures or two options on one underlying.".into();
     ctx.assumptions = vec![
         "venues behave as their documented formats say (market strings, payload shapes, Bitfinex channel-id assignment in `subscribed` replies)".into(),
         "prices/amounts compared as the parsed decimal strings (f64 fields within 1e-12 relative); exchange time within 1 ms; Bitfinex / Gateio-futures sign-encoded amounts compared by magnitude".into(),
